@@ -218,7 +218,7 @@ where
         let model = probe.model.clone();
         {
             let mut m = model.lock().unwrap();
-            m.use_expectations = false;
+            m.mode = crate::probe::Mode::Agnostic;
         }
         let cfg2 = cfg.clone();
         let res = std::panic::catch_unwind(std::panic::AssertUnwindSafe(move || {
